@@ -91,10 +91,10 @@ func (w *fsWriter) Write(p []byte) (n int, err error) {
 		}
 		// Copy p to w.buf
 		writable := len(w.buf) - w.offset
-		if len(p) < writable {
-			writable = len(p)
+		if len(p)-written < writable {
+			writable = len(p) - written
 		}
-		c := copy(w.buf[w.offset:], p[written:writable])
+		c := copy(w.buf[w.offset:], p[written:written+writable])
 		w.offset += c
 		written += c
 		if w.offset == len(w.buf) { // sizes line up, flush and continue
